@@ -156,3 +156,7 @@ func TestVerifC07Regressions(t *testing.T) {
 func TestVerifC11Composite(t *testing.T) {
 	vs.Run(t, "C11", func(c *vs.Case) error { return vw.PropC11(c, compositeFactory) })
 }
+
+func TestVerifC10Composite(t *testing.T) {
+	vs.Run(t, "C10", func(c *vs.Case) error { return vw.PropC10(c, compositeFactory, "composite") })
+}
